@@ -813,6 +813,7 @@ func shrinkViolation(safe core.RunFunc, v core.Violation) core.Violation {
 func main() {
 	core.ParseFlags()
 	node.Quiet()
+	node.DropEngineGoroutines() // see mc/node/tasks.go
 	safe := core.SafeRun(prop, run)
 	if core.Opt.Replay != "" {
 		var rp struct {
